@@ -756,4 +756,63 @@ def srun (c : SCfg) : List SOp → SRegs → Except Fault (SRegs × List SOut)
       let (m'', os) ← srun c ops m'
       pure (m'', o :: os)
 
+
+/-! ## unbounded_array<T> (anchored by C14, modelled for C03)
+
+Only its API meaning is needed here: a heap array of exactly `size` elements,
+replaced as a whole by `resize` / `operator=`.  No slot model — the element
+lifetimes are observed on the real code by the harness ledger. -/
+
+inductive UOp where
+  | new (r n : Nat)
+  | from (r : Nat) (xs : List Nat)       -- (ptr,len) and initializer-list constructors
+  | copy (r s : Nat)
+  | move (r s : Nat)
+  | assign (r s : Nat)
+  | resize (r n : Nat)
+  | fill (r x : Nat)
+  | set (r i x : Nat)
+  | clear (r : Nat)
+  | del (r : Nat)
+  | finish
+deriving Repr
+
+abbrev URegs := Nat → Option (List Nat)
+
+def setU (f : URegs) (r : Nat) (x : Option (List Nat)) : URegs := fun q => if q = r then x else f q
+
+/-- `none` = outside the contract, skipped -/
+def ustep (K : Nat) (m : URegs) : UOp → Option URegs
+  | .new r n => match decide (r < K), m r with
+      | true, none => some (setU m r (some (List.replicate n 0)))
+      | _, _ => none
+  | .from r xs => match decide (r < K), m r with
+      | true, none => some (setU m r (some xs))
+      | _, _ => none
+  | .copy r s => match decide (r < K ∧ s < K), m r, m s with
+      | true, none, some o => some (setU m r (some o))
+      | _, _, _ => none
+  | .move r s => match decide (r < K ∧ s < K), m r, m s with
+      | true, none, some o => some (setU (setU m s (some [])) r (some o))
+      | _, _, _ => none
+  | .assign r s => match decide (r < K ∧ s < K), m r, m s with
+      | true, some _, some o => some (setU m r (some o))
+      | _, _, _ => none
+  | .resize r n => match decide (r < K), m r with
+      | true, some _ => some (setU m r (some (List.replicate n 0)))
+      | _, _ => none
+  | .fill r x => match decide (r < K), m r with
+      | true, some a => some (setU m r (some (a.map fun _ => x)))
+      | _, _ => none
+  | .set r i x => match decide (r < K), m r with
+      | true, some a => if i < a.length then some (setU m r (some (a.set i x))) else none
+      | _, _ => none
+  | .clear r => match decide (r < K), m r with
+      | true, some _ => some (setU m r (some []))
+      | _, _ => none
+  | .del r => match decide (r < K), m r with
+      | true, some _ => some (setU m r none)
+      | _, _ => none
+  | .finish => some (fun _ => none)
+
 end Igris.C14
